@@ -110,8 +110,14 @@ def w_image(pid, tier, seed, job):
             data = AW.wrap_2352(img)[: (c // 2048) * 2352 + min(c % 2048 + 16, 2352) if c % 2048 else (c // 2048) * 2352]
         with R.TempImage(data) as path:
             r, tree, rep = R.export(path)
+            again = R.export(path, prefill=tree0) if c % 4 == 1 else None
         case = dict(base_case, cut=c, cut_sector=c // SECTOR)
         ctx.count("akai_cut", (job, c), nontrivial=c < (max(used) + 1) * SECTOR)
+        if again is not None:
+            # exported into the directory that still holds the complete image's (longer) files: never bytes from elsewhere
+            bad = [p for p in again[2] if again[1].get(p) != tree.get(p)]
+            ctx.require("a truncated image exported over an earlier complete export writes the same files as into an empty directory (no stale tail)",
+                        dict(case, reused_destination=True), sorted(again[2]) == sorted(rep) and not bad, {"differ": bad[:4], "reported": again[2][:6]})
         got = pcm_of({p: tree[p] for p in rep if p in tree})
         ctx.require("every reported file exists", case, all(p in tree for p in rep), [p for p in rep if p not in tree])
         for p, (ok, why, pcm, ch) in got.items():
